@@ -68,11 +68,19 @@ class RecordingProblem:
         self.stamp = stamp
         self._seq = 0
         self.fault = None  # optional callable(seq) -> raise
+        self._handed_out = []  # arrays returned to the algorithm; poisoned later to expose retained views
 
     def __getattr__(self, name):
         return getattr(self._inner, name)
 
+    def poison_handed_out(self):
+        """the caller 're-uses its buffers': whoever kept a view of a returned observation array now sees NaN"""
+        for arr in self._handed_out:
+            arr[...] = np.nan
+        self._handed_out = []
+
     def evaluate(self, x, *a, **k):
+        self.poison_handed_out()
         y = self._inner.evaluate(x, *a, **k)
         y = np.array(y, float, copy=True)
         if self.stamp and y.size:
@@ -85,4 +93,5 @@ class RecordingProblem:
         self.log.append({"seq": self._seq, "x": np.array(x, float, copy=True),
                          "evaluation_index": None if ei is None else np.array(ei).copy(), "y": y.copy()})
         self._seq += 1
+        self._handed_out.append(y)
         return y
